@@ -298,7 +298,29 @@ def index_snapshot_of(sim):
     return tracer.index_snapshot(sim)
 
 
-COSIM = {"unknown": cosim_unknown, "throttle": cosim_throttle, "move": cosim_move, "membership": cosim_membership, "speed": cosim_speed}
+def cosim_stale(rp, tr: tracer.Tracer, rng: random.Random) -> Any:
+    """a co-simulation user that re-prices requests working ONE INTERVAL BEHIND: it pushes (through modify_entities_safe)
+    copies of the request objects it saw before the previous call of crank.  Requests that were picked up or cancelled in
+    the meantime are no longer in the simulation: modifying them must be refused, not bring them back"""
+    from returns.result import Failure
+
+    from nrel.hive.runner import runner_payload_ops
+
+    seen = getattr(tr, "_stale_requests", [])
+    tr._stale_requests = [rp.s.requests[k] for k in sorted(rp.s.requests.keys())]
+    for r in seen:
+        try:
+            res = runner_payload_ops.modify_entities_safe(rp, (r,))
+        except Exception:
+            continue
+        if isinstance(res, Failure):
+            continue
+        rp = res.unwrap()
+    tr.write({"ev": "cosim", "what": "modify_entities_safe(requests seen one interval ago)", "d": tr.proj.advance(rp.s, rp.e), "rep": []})
+    return rp
+
+
+COSIM = {"stale": cosim_stale, "unknown": cosim_unknown, "throttle": cosim_throttle, "move": cosim_move, "membership": cosim_membership, "speed": cosim_speed}
 
 
 def run_adv(seed: int, work: Path, trace_path: Path, *, steps: int = 40, mix: Optional[str] = None,
